@@ -132,7 +132,7 @@ def translate():
     np = norm(between(cg, r"fn next_pass\(&mut self\) \{", r"\n    \}", "next_pass"))
     # (`self.analysis.clear();` concerns the language-server analysis only, which the assembler model does not carry)
     # C06 (loop iteration budget): `self.loop_iterations = 0;` is bookkeeping of the `.loop` limit
-    if np.replace(" self.analysis.clear();", "").replace(" self.loop_iterations = 0;", "") != ("self.pass_idx += 1; self.next_macro_scope_id = 0; self.changed.clear(); self.segments.values_mut().for_each(|s| s.reset()); "
+    if np.replace(" self.analysis.clear();", "").replace(" self.loop_iterations = 0;", "").replace(" self.containers_entered = 0; self.nesting_exhausted = false;", "") != ("self.pass_idx += 1; self.next_macro_scope_id = 0; self.changed.clear(); self.segments.values_mut().for_each(|s| s.reset()); "
               "self.test_elements.clear(); self.source_map.clear();"):
         raise ShapeError("next_pass changed: %s" % np)
     ap = norm(between(cg, r"fn register_all_segment_symbols\(&mut self\) -> CoreResult<\(\)> \{", r"\n    \}", "register_all_segment_symbols"))
